@@ -323,6 +323,47 @@ pub fn c09(ctx: &mut Ctx) {
             }
         });
     }
+    // SR / RR carrying a profile-specific extension after their report blocks (RFC 3550 6.4.1 / 6.4.2): well-formed,
+    // so they must be accepted, with exactly RC report blocks and all fields at their offsets
+    {
+        let ext_words = [1usize, 2, 5, 6, 7, 13];
+        let counts = [0usize, 1, 2, 31];
+        ctx.bound("profile-specific extensions", "SR / RR with {0,1,2,31} report blocks followed by an extension of {1,2,5,6,7,13} words, padding {0,4,24}");
+        ctx.run_space("wellformed:sr-rr-with-profile-extension", (6 * 4 * 3 * 2) as u64, |idx, l| {
+            let ew = ext_words[(idx % 6) as usize];
+            let n = counts[((idx / 6) % 4) as usize];
+            let pad = [0u8, 4, 24][((idx / 24) % 3) as usize];
+            let blocks: Vec<Rb> = (0..n).map(|i| gens::sentinel_rb(i, 0x33)).collect();
+            let p = if idx / 72 == 0 { Pkt::Sr { ssrc: 0x0102_0304, ntp: 0x1112_1314_1516_1718, rtp: 0x2122_2324, pc: 5, oc: 6, blocks, pad: 0 } } else { Pkt::Rr { ssrc: 0x0102_0304, blocks, pad: 0 } };
+            let mut img = wire::encode(&p);
+            for w in 0..ew {
+                img.extend_from_slice(&[0xE0 | w as u8, 0x01, 0x02, 0x03 + w as u8]);
+            }
+            let words = (img.len() / 4 - 1) as u16;
+            img[2] = (words >> 8) as u8;
+            img[3] = words as u8;
+            let img = if pad > 0 { wire::pad_packet(&img, pad) } else { img };
+            l.evals += 1;
+            l.states += 1;
+            l.sample(|| hex_short(&img));
+            let pt = img[1];
+            match guard::catch(|| check_views(l, &img, true, Some(pt))) {
+                Err(pi) => l.subject_panic("views", &pi, || hex_short(&img)),
+                Ok(k) => {
+                    l.validated += 1;
+                    if k > 0 {
+                        l.nontrivial(fp_bytes(&img));
+                    }
+                }
+            }
+            // and as the only packet of a datagram
+            match guard::catch(|| Compound::parse(&img).map(|mut c| c.next().map(|r| r.is_ok()))) {
+                Err(pi) => l.subject_panic("views:Compound", &pi, || hex_short(&img)),
+                Ok(Ok(Some(true))) => l.hit("extension-carrying report accepted through a compound"),
+                Ok(other) => l.violation("well-formed-rejected:report-with-extension-in-compound", || hex_short(&img), || format!("{:?}", other)),
+            }
+        });
+    }
     // iterator call histories: report_blocks() of SR / RR and ssrcs() of BYE driven through every sequence of
     // next / nth / take-count calls up to a depth, then collect / count / last, against the item list that plain
     // next() calls give (which the spaces above compare with the wire)
@@ -389,6 +430,8 @@ pub fn c09(ctx: &mut Ctx) {
             l.evals += 1;
             l.states += 1;
             l.sample(|| hex_short(&buf));
+            // the field readers behind every accessor, also on slices that run past the leading packet
+            super::common::header_field_readers_case(l, &buf);
             match guard::catch(|| check_views(l, &buf, false, None)) {
                 Err(pi) => l.subject_panic("views", &pi, || hex_short(&buf)),
                 Ok(n) => {
@@ -462,6 +505,27 @@ fn transparency_case(l: &mut Local, img: &[u8], n: u8, name: &str, type_name: &s
                         );
                     } else {
                         l.hit(if prefix.is_empty() { "transparent" } else { "transparent (parser-accepted shape)" });
+                        // a padded packet is what ends a datagram: taken as a compound of one packet it must be
+                        // accepted just the same and show the same content
+                        l.transitions += 1;
+                        let via = guard::catch(|| -> Result<(), String> {
+                            let mut c = Compound::parse(&padded).map_err(|e| format!("Compound::parse = {:?}", e))?;
+                            let first = c.next().ok_or("the compound yields nothing")?.map_err(|e| format!("the compound yields {:?}", e))?;
+                            let mut o2 = observe::obs_packet(&first, padded.len()).map_err(|e| format!("{:?}", e))?;
+                            if o2.pad() != n {
+                                return Err(format!("through the compound padding() reports {}", o2.pad()));
+                            }
+                            o2.set_pad(0);
+                            if o2 != plain {
+                                return Err(format!("through the compound the content reads {}", o2.short()));
+                            }
+                            Ok(())
+                        });
+                        match via {
+                            Err(pi) => l.subject_panic(&format!("{}parse-padded-as-compound:{}", prefix, name), &pi, || format!("{} + padding {}", hex_short(img), n)),
+                            Ok(Err(m)) => l.violation(format!("{}padded-not-transparent-through-Compound::parse:{}", prefix, type_name), || format!("{} + padding {}", hex_short(img), n), || m),
+                            Ok(Ok(())) => {}
+                        }
                     }
                 }
             }
